@@ -15,6 +15,7 @@ import (
 	"github.com/libp2p/go-msgio"
 
 	"github.com/ipfs/go-graphsync"
+	"github.com/ipfs/go-graphsync/verifhook"
 )
 
 // MessageHandler provides a consistent interface for maintaining per-peer state
@@ -223,6 +224,9 @@ func (gsm GraphSyncMessage) Requests() []GraphSyncRequest {
 	for _, request := range gsm.requests {
 		requests = append(requests, request)
 	}
+	if verifhook.Enabled {
+		verifhook.Order("message.Requests", len(requests), func(i int) string { return requests[i].ID().String() }, func(i, j int) { requests[i], requests[j] = requests[j], requests[i] })
+	}
 	return requests
 }
 
@@ -242,6 +246,9 @@ func (gsm GraphSyncMessage) Responses() []GraphSyncResponse {
 	for _, response := range gsm.responses {
 		responses = append(responses, response)
 	}
+	if verifhook.Enabled {
+		verifhook.Order("message.Responses", len(responses), func(i int) string { return responses[i].RequestID().String() }, func(i, j int) { responses[i], responses[j] = responses[j], responses[i] })
+	}
 	return responses
 }
 
@@ -250,6 +257,9 @@ func (gsm GraphSyncMessage) Blocks() []blocks.Block {
 	bs := make([]blocks.Block, 0, len(gsm.blocks))
 	for _, block := range gsm.blocks {
 		bs = append(bs, block)
+	}
+	if verifhook.Enabled {
+		verifhook.Order("message.Blocks", len(bs), func(i int) string { return bs[i].Cid().KeyString() }, func(i, j int) { bs[i], bs[j] = bs[j], bs[i] })
 	}
 	return bs
 }
@@ -296,6 +306,9 @@ func (gsr GraphSyncRequest) ExtensionNames() []graphsync.ExtensionName {
 	for ext := range gsr.extensions {
 		extNames = append(extNames, graphsync.ExtensionName(ext))
 	}
+	if verifhook.Enabled {
+		verifhook.Order("message.ExtensionNames", len(extNames), func(i int) string { return string(extNames[i]) }, func(i, j int) { extNames[i], extNames[j] = extNames[j], extNames[i] })
+	}
 	return extNames
 }
 
@@ -326,6 +339,9 @@ func (gsr GraphSyncResponse) ExtensionNames() []graphsync.ExtensionName {
 	var extNames []graphsync.ExtensionName
 	for ext := range gsr.extensions {
 		extNames = append(extNames, graphsync.ExtensionName(ext))
+	}
+	if verifhook.Enabled {
+		verifhook.Order("message.ExtensionNames", len(extNames), func(i int) string { return string(extNames[i]) }, func(i, j int) { extNames[i], extNames[j] = extNames[j], extNames[i] })
 	}
 	return extNames
 }
